@@ -81,6 +81,44 @@ where
         && bx.min(by).get() == x.min(y)
 }
 
+/// The whole `BigEndian<T>` / `Scalar` surface for one value: `new`/`from`/`set` + `get`, `be_bytes`,
+/// `from_slice` and `Scalar::read` (exact length only), `== T`, `RAW_BYTE_LEN`. `other` seeds the cell
+/// that `set` overwrites. No allocation (the thorough tier calls this 2^32 times).
+fn be_api<T: Scalar + Copy + PartialEq>(v: T, other: T, size: usize) -> bool
+where
+    T::Raw: AsRef<[u8]> + PartialEq,
+{
+    let raw = v.to_raw();
+    let mut buf = [0xA5u8; 10];
+    if raw.as_ref().len() != size {
+        return false;
+    }
+    buf[..size].copy_from_slice(raw.as_ref());
+    let (exact, longer, shorter) = (&buf[..size], &buf[..size + 1], &buf[..size - 1]);
+    let a = BigEndian::<T>::new(raw);
+    let b = BigEndian::<T>::from(v);
+    let mut c = BigEndian::<T>::from(other);
+    c.set(v);
+    <T as FixedSize>::RAW_BYTE_LEN == size
+        && <BigEndian<T> as FixedSize>::RAW_BYTE_LEN == size
+        && a.get() == v
+        && a.be_bytes() == exact
+        && a == v
+        && (a == other) == (v == other)
+        && b.be_bytes() == exact
+        && c.get() == v
+        && c.be_bytes() == exact
+        && a == b
+        && (BigEndian::<T>::from(other) == a) == (other.to_raw() == raw)
+        && BigEndian::<T>::from_slice(exact).map(|x| x.get() == v && x.be_bytes() == exact) == Some(true)
+        && BigEndian::<T>::from_slice(longer).is_none()
+        && BigEndian::<T>::from_slice(shorter).is_none()
+        && T::read(exact).map(|x| x == v) == Some(true)
+        && T::read(longer).is_none()
+        && T::read(shorter).is_none()
+        && T::from_raw(raw) == v
+}
+
 /// round(num/den) half away from zero, exact
 fn div_round_haz(num: i128, den: i128) -> i128 {
     assert!(den != 0);
@@ -116,10 +154,8 @@ fn body(run: &Run, replay: Option<&Value>) {
     run.bound("W_size", json!(w.len()));
     // thorough: binary ops over the extended alphabet W+ (every 2^k +/- 0..=3, 3*2^k, 5*2^k, alternating-bit
     // patterns and a few primes), ternary ops over W as before plus W+ thinned to keep the cube below 2*10^8
-    let wx = match run.tier {
-        Tier::Thorough => alphabet_ext(&w),
-        Tier::Quick => w.clone(),
-    };
+    // (quick now also uses W+ for the binary operations: 644^2 pairs cost well under a second)
+    let wx = alphabet_ext(&w);
     run.bound("W_binary_size", json!(wx.len()));
     binary_ops(run, &wx);
     ternary_ops(run, &w);
@@ -142,7 +178,7 @@ fn replay_case(run: &Run, case: &Value) {
     let b = case["b"].as_i64().unwrap_or(0) as i32;
     let c = case["c"].as_i64().unwrap_or(0) as i32;
     match op {
-        "mul" | "div" | "be_ord" | "cmp" | "cmp16" | "cmp24" | "cmp26" | "cmp_tag" | "cmp_version" | "cmp_offset32" | "cmp_glyphid" | "cmp_ldt" => check_binary(run, a, b, &mut None),
+        "mul" | "div" | "be_ord" | "cmp" | "f26_sum" | "op_assign" | "cmp_majorminor" | "cmp16" | "cmp24" | "cmp26" | "cmp_tag" | "cmp_version" | "cmp_offset32" | "cmp_glyphid" | "cmp_ldt" => check_binary(run, a, b, &mut None),
         "mul_div" | "mul_div_26_6" => check_ternary(run, a, b, c, &mut None),
         "conv16" => conversions(run),
         "float_sat" => float_saturation(run),
@@ -367,6 +403,56 @@ fn check_binary(run: &Run, a: i32, b: i32, local: &mut Option<&mut Local>) {
             );
         }
     }
+    // F26Dot6 shares the add/sub family (same macro, other parameters): same i32 reference
+    let sums26 = [
+        ((f26a + f26b).to_bits(), a.wrapping_add(b), "add"),
+        ((f26a - f26b).to_bits(), a.wrapping_sub(b), "sub"),
+        (f26a.wrapping_add(f26b).to_bits(), a.wrapping_add(b), "wrapping_add"),
+        (f26a.wrapping_sub(f26b).to_bits(), a.wrapping_sub(b), "wrapping_sub"),
+        (f26a.saturating_add(f26b).to_bits(), a.saturating_add(b), "saturating_add"),
+        (f26a.saturating_sub(f26b).to_bits(), a.saturating_sub(b), "saturating_sub"),
+        (f26a.checked_add(f26b).map(|v| v.to_bits()).unwrap_or(0x5A5A_5A5A), a.checked_add(b).unwrap_or(0x5A5A_5A5A), "checked_add"),
+    ];
+    for (got, want, name) in sums26 {
+        if got != want {
+            run.violation(&format!("F26Dot6::{name} differs from i32::{name}"), &format!("a={a:#x} b={b:#x}: got {got} want {want}"), json!({"op":"f26_sum","fn":name,"a":a,"b":b}));
+        }
+    }
+    // the compound-assignment operators are documented as the binary operator followed by assignment
+    {
+        let (mut p, mut q) = (fa, fa);
+        p += fb;
+        q -= fb;
+        if p != fa + fb || q != fa - fb {
+            run.violation("Fixed += / -= differs from + / -", &format!("a={a:#x} b={b:#x}"), json!({"op":"op_assign","a":a,"b":b}));
+        }
+        let (mut p26, mut q26) = (f26a, f26a);
+        p26 += f26b;
+        q26 -= f26b;
+        if p26 != f26a + f26b || q26 != f26a - f26b {
+            run.violation("F26Dot6 += / -= differs from + / -", &format!("a={a:#x} b={b:#x}"), json!({"op":"op_assign","a":a,"b":b}));
+        }
+        let ok = guard(|| {
+            let (mut r, mut t) = (fa, fa);
+            r *= fb;
+            t /= fb;
+            let (mut r26, mut t26) = (f26a, f26a);
+            r26 *= f26b;
+            t26 /= f26b;
+            r == fa * fb && t == fa / fb && r26 == f26a * f26b && t26 == f26a / f26b
+        });
+        if !matches!(ok, Ok(true)) {
+            run.violation("Fixed/F26Dot6 *= or /= differs from * or /", &format!("a={a:#x} b={b:#x}"), json!({"op":"op_assign","a":a,"b":b}));
+        }
+    }
+    // MajorMinor orders as its four big-endian bytes; so does BigEndian<MajorMinor>
+    {
+        let (ua, ub) = (a as u32, b as u32);
+        let (ma, mb) = (MajorMinor::new((ua >> 16) as u16, ua as u16), MajorMinor::new((ub >> 16) as u16, ub as u16));
+        if ma.cmp(&mb) != ua.cmp(&ub) || ma.partial_cmp(&mb) != Some(ua.cmp(&ub)) || (ma == mb) != (ua == ub) || !be_ord(ma, mb) {
+            run.violation("MajorMinor (or BigEndian<MajorMinor>) ordering differs from raw-bit ordering", &format!("a={ua:#x} b={ub:#x}"), json!({"op":"cmp_majorminor","a":a,"b":b}));
+        }
+    }
     if fa.checked_add(fb).map(|v| v.to_bits()) != a.checked_add(b) {
         run.violation("Fixed::checked_add", "differs from i32::checked_add", json!({"op":"checked_add","a":a,"b":b}));
     }
@@ -443,15 +529,8 @@ fn check_ternary(run: &Run, a: i32, b: i32, c: i32, local: &mut Option<&mut Loca
 
 fn ternary_ops(run: &Run, w: &[i32]) {
     // thorough: all triples over W; quick: all triples over every third value of W plus the extremes
-    let sub: Vec<i32> = match run.tier {
-        Tier::Thorough => w.to_vec(),
-        Tier::Quick => w
-            .iter()
-            .enumerate()
-            .filter(|(i, v)| i % 3 == 0 || **v == i32::MIN || **v == i32::MAX || v.unsigned_abs() <= 2)
-            .map(|(_, v)| *v)
-            .collect(),
-    };
+    // all triples over W in both tiers (6.7 M triples)
+    let sub: Vec<i32> = w.to_vec();
     run.bound("mul_div_alphabet_size", json!(sub.len()));
     ternary_over(run, &sub);
 }
@@ -496,6 +575,7 @@ macro_rules! scalar_rt16 {
                 || mk.to_raw() != bytes
                 || bits != raw
                 || <$ty as Scalar>::read(&bytes[..1]).is_some()
+                || !be_api::<$ty>(v, $mk(raw.wrapping_mul(40503).wrapping_add(1)), 2)
             {
                 bad += 1;
                 if bad == 1 {
@@ -550,6 +630,16 @@ fn conversions(run: &Run) {
         }
         if UfWord::from(v).to_u16() != v || u16::from(UfWord::new(v)) != v || UfWord::new(v).to_fixed() != Fixed::from_i32(v as i32) {
             bad("UfWord from/into/to_fixed", v32, "value not kept".into());
+        }
+        if FWord::new(s).to_be_bytes() != v.to_be_bytes()
+            || UfWord::new(v).to_be_bytes() != v.to_be_bytes()
+            || g16.to_be_bytes() != v.to_be_bytes()
+            || NameId::new(v).to_be_bytes() != v.to_be_bytes()
+            || F2Dot14::from_bits(s).to_be_bytes() != v.to_be_bytes()
+            || F4Dot12::from_bits(s).to_be_bytes() != v.to_be_bytes()
+            || F6Dot10::from_bits(s).to_be_bytes() != v.to_be_bytes()
+        {
+            bad("16-bit to_be_bytes", v32, "not the big-endian bytes of the value".into());
         }
         if NameId::from(v).to_u16() != v || NameId::new(v).is_reserved() != (v <= 255) {
             bad("NameId from/is_reserved", v32, "wrong".into());
@@ -623,6 +713,9 @@ fn conversions(run: &Run) {
             if len == 4 {
                 let arr: [u8; 4] = [buf[0], buf[1], buf[2], buf[3]];
                 let t = Tag::new(&arr);
+                if AsRef::<[u8]>::as_ref(&t) != &arr[..] || std::borrow::Borrow::<[u8; 4]>::borrow(&t) != &arr || t.to_be_bytes() != arr || Tag::from_u32(u32::from_be_bytes(arr)) != t {
+                    bad("Tag as_ref/borrow/to_be_bytes", n as u32, format!("{arr:02x?}"));
+                }
                 if t != Tag::from_be_bytes(arr) || t.into_bytes() != arr || !(t == arr) || !(t == &arr[..]) || (t == &arr[..3]) || t.validate().is_ok() != valid {
                     bad("Tag new/eq/validate", n as u32, format!("{arr:02x?}: validate {:?}, valid per documented rules = {valid}", t.validate()));
                 }
@@ -700,7 +793,63 @@ fn float_saturation(run: &Run) {
     run.count("float_saturation_cases", n);
 }
 
+/// documented constants and defaults, byte-level accessors not covered elsewhere
+fn constants(run: &Run) {
+    let mut bad = |what: &str| run.violation(&format!("constant/default: {what}"), what, json!({"op":"constants"}));
+    macro_rules! fx {
+        ($t:ident, $int:ty, $fb:expr, $name:literal) => {{
+            if $t::ONE.to_bits() != (1 as $int) << $fb || $t::EPSILON.to_bits() != 1 || $t::ZERO.to_bits() != 0 || $t::MIN.to_bits() != <$int>::MIN || $t::MAX.to_bits() != <$int>::MAX || $t::default() != $t::ZERO {
+                bad(concat!($name, " ONE/EPSILON/ZERO/MIN/MAX/default"));
+            }
+        }};
+    }
+    fx!(F2Dot14, i16, 14, "F2Dot14");
+    fx!(F4Dot12, i16, 12, "F4Dot12");
+    fx!(F6Dot10, i16, 10, "F6Dot10");
+    fx!(Fixed, i32, 16, "Fixed");
+    fx!(F26Dot6, i32, 6, "F26Dot6");
+    if F2Dot14::ONE.to_f32() != 1.0 || F4Dot12::ONE.to_f32() != 1.0 || F6Dot10::ONE.to_f32() != 1.0 || Fixed::ONE.to_f64() != 1.0 || F26Dot6::ONE.to_f64() != 1.0 || Fixed::ONE.to_i32() != 1 || F26Dot6::ONE.to_i32() != 1 {
+        bad("ONE is not 1.0");
+    }
+    if Int24::MIN.to_i32() != -0x80_0000 || Int24::MAX.to_i32() != 0x7F_FFFF || Uint24::MIN.to_u32() != 0 || Uint24::MAX.to_u32() != 0xFF_FFFF || Int24::default().to_i32() != 0 || Uint24::default().to_u32() != 0 {
+        bad("Int24/Uint24 MIN/MAX/default");
+    }
+    let versions = [
+        (Version16Dot16::VERSION_0_5, 0x0000_5000u32),
+        (Version16Dot16::VERSION_1_0, 0x0001_0000),
+        (Version16Dot16::VERSION_1_1, 0x0001_1000),
+        (Version16Dot16::VERSION_2_0, 0x0002_0000),
+        (Version16Dot16::VERSION_2_5, 0x0002_5000),
+        (Version16Dot16::VERSION_3_0, 0x0003_0000),
+    ];
+    for (v, bits) in versions {
+        if v.to_be_bytes() != bits.to_be_bytes() {
+            bad("Version16Dot16::VERSION_x_y bytes");
+        }
+    }
+    let mms = [(MajorMinor::VERSION_1_0, 0x0001_0000u32), (MajorMinor::VERSION_1_1, 0x0001_0001), (MajorMinor::VERSION_1_2, 0x0001_0002), (MajorMinor::VERSION_1_3, 0x0001_0003), (MajorMinor::VERSION_2_0, 0x0002_0000)];
+    for (v, bits) in mms {
+        if v.to_be_bytes() != bits.to_be_bytes() {
+            bad("MajorMinor::VERSION_x_y bytes");
+        }
+    }
+    if GlyphId16::NOTDEF.to_u16() != 0 || GlyphId::NOTDEF.to_u32() != 0 || GlyphId16::default() != GlyphId16::NOTDEF || GlyphId::default() != GlyphId::NOTDEF {
+        bad("GlyphId NOTDEF/default");
+    }
+    if !<Nullable<Offset16>>::default().is_null() || !<Nullable<Offset24>>::default().is_null() || !<Nullable<Offset32>>::default().is_null() || <Nullable<Offset32>>::default().to_raw() != [0; 4] {
+        bad("Nullable<Offset*>::default is not null");
+    }
+    if BigEndian::<u16>::default().get() != 0 || BigEndian::<Fixed>::default().get() != Fixed::ZERO || BigEndian::<Int24>::default().be_bytes() != [0u8, 0, 0] || BigEndian::<LongDateTime>::default().get().as_secs() != 0 {
+        bad("BigEndian::default");
+    }
+    if NameId::LAST_ALLOWED_NAME_ID.to_u16() != 32767 || NameId::LAST_RESERVED_NAME_ID.to_u16() != 255 {
+        bad("NameId limits");
+    }
+    run.evals(60);
+}
+
 fn small_types(run: &Run) {
+    constants(run);
     scalar_rt16!(run, u16, "u16", |r: u16| r, |v: u16| v);
     scalar_rt16!(run, i16, "i16", |r: u16| r as i16, |v: i16| v as u16);
     scalar_rt16!(run, F2Dot14, "F2Dot14", |r: u16| F2Dot14::from_bits(r as i16), |v: F2Dot14| v.to_bits() as u16);
@@ -716,6 +865,7 @@ fn small_types(run: &Run) {
         let ok = <u8 as Scalar>::from_raw([raw]).to_raw() == [raw]
             && <i8 as Scalar>::from_raw([raw]).to_raw() == [raw]
             && <i8 as Scalar>::from_raw([raw]) == raw as i8;
+        let ok = ok && be_api::<u8>(raw, !raw, 1) && be_api::<i8>(raw as i8, !raw as i8, 1);
         if !ok {
             run.violation("u8/i8 round trip", "8-bit scalar does not round trip", json!({"op":"scalar8","raw":raw}));
         }
@@ -758,6 +908,19 @@ fn small_types(run: &Run) {
                 );
             }
         }
+        // the same for the other two 16-bit formats (the rounding error of the f32 division is far below
+        // the distance to the tie here as well)
+        for d in [-0.49f64, -0.25, 0.25, 0.49] {
+            let g4 = F4Dot12::from_f32(((i as f64 + d) / 4096.0) as f32).to_bits();
+            let g6 = F6Dot10::from_f32(((i as f64 + d) / 1024.0) as f32).to_bits();
+            if g4 != i || g6 != i {
+                run.violation(
+                    "F4Dot12/F6Dot10::from_f32 nearest",
+                    &format!("from_f32(({i}+{d})/one) = {g4} / {g6}"),
+                    json!({"op":"f16_from_f32","raw":i,"d":d}),
+                );
+            }
+        }
         // F2Dot14 -> Fixed is exact (x4)
         if a.to_fixed().to_bits() != (i as i32) * 4 {
             run.violation("F2Dot14::to_fixed", "not raw*4", json!({"op":"f2dot14_to_fixed","raw":i}));
@@ -778,6 +941,45 @@ fn small_types(run: &Run) {
         let (r, f, fr) = rf(i, 14);
         if a.round().to_bits() != r || a.floor().to_bits() != f || a.fract().to_bits() != fr {
             run.violation("F2Dot14 round/floor/fract", "differs from integer reference", json!({"op":"f2dot14_round","raw":i}));
+        }
+        let (r, f, fr) = rf(i, 12);
+        if b.round().to_bits() != r || b.floor().to_bits() != f || b.fract().to_bits() != fr {
+            run.violation("F4Dot12 round/floor/fract", "differs from integer reference", json!({"op":"f4dot12_round","raw":i}));
+        }
+        let (r, f, fr) = rf(i, 10);
+        if c.round().to_bits() != r || c.floor().to_bits() != f || c.fract().to_bits() != fr {
+            run.violation("F6Dot10 round/floor/fract", "differs from integer reference", json!({"op":"f6dot10_round","raw":i}));
+        }
+        if a.abs().to_bits() != i.wrapping_abs() || b.abs().to_bits() != i.wrapping_abs() || c.abs().to_bits() != i.wrapping_abs() {
+            run.violation("16-bit fixed abs", "differs from i16::wrapping_abs", json!({"op":"f16_abs","raw":i}));
+        }
+        // add / sub family of the 16-bit fixed types against i16, partners from a boundary list
+        for j in [0i16, 1, -1, 2, 0x3FFF, 0x4000, -0x4000, i16::MAX, i16::MIN, i16::MIN + 1, i, i.wrapping_neg(), !i] {
+            macro_rules! fam {
+                ($t:ident, $name:literal) => {{
+                    let (x, y) = ($t::from_bits(i), $t::from_bits(j));
+                    let (mut p, mut q) = (x, x);
+                    p += y;
+                    q -= y;
+                    if (x + y).to_bits() != i.wrapping_add(j)
+                        || (x - y).to_bits() != i.wrapping_sub(j)
+                        || x.wrapping_add(y).to_bits() != i.wrapping_add(j)
+                        || x.wrapping_sub(y).to_bits() != i.wrapping_sub(j)
+                        || x.saturating_add(y).to_bits() != i.saturating_add(j)
+                        || x.saturating_sub(y).to_bits() != i.saturating_sub(j)
+                        || x.checked_add(y).map(|v| v.to_bits()) != i.checked_add(j)
+                        || p != x + y
+                        || q != x - y
+                        || x.cmp(&y) != i.cmp(&j)
+                        || (x == y) != (i == j)
+                    {
+                        run.violation(concat!($name, " add/sub family differs from i16"), &format!("a={i} b={j}"), json!({"op":"f16_sum","type":$name,"a":i,"b":j}));
+                    }
+                }};
+            }
+            fam!(F2Dot14, "F2Dot14");
+            fam!(F4Dot12, "F4Dot12");
+            fam!(F6Dot10, "F6Dot10");
         }
         // ordering equals raw ordering (adjacent values, exhaustive chain)
         if let Some((pa, pb, pc)) = prev {
@@ -822,7 +1024,19 @@ fn small_types(run: &Run) {
                 && BigEndian::<Uint24>::from(u).get() == u
                 && BigEndian::<Int24>::from(s).get() == s
                 && Uint24::from_be_bytes(bytes).to_be_bytes() == bytes
-                && Int24::from_be_bytes(bytes).to_be_bytes() == bytes;
+                && Int24::from_be_bytes(bytes).to_be_bytes() == bytes
+                && i32::from(s) == sval
+                && u32::from(u) == raw
+                && usize::from(u) == raw as usize
+                && Uint24::try_from(raw as usize).ok() == Some(u)
+                && Offset24::new(u) == o
+                && o.is_null() == (raw == 0)
+                && (o == raw)
+                && !(o == raw + 1)
+                && <Nullable<Offset24> as Scalar>::from_raw(bytes).is_null() == (raw == 0)
+                && <Nullable<Offset24> as Scalar>::from_raw(bytes).to_raw() == bytes
+                && (raw % 251 != 0 && raw >= 4096 && raw < 0xFF_F000
+                    || (be_api::<Uint24>(u, Uint24::new(raw ^ 0x80_0001), 3) && be_api::<Int24>(s, Int24::new(!sval), 3) && be_api::<Offset24>(o, Offset24::new(Uint24::new(raw ^ 0x80_0001)), 3)));
             (!ok) as u64
         })
         .sum();
@@ -853,6 +1067,15 @@ fn int24(run: &Run, w: &[i32]) {
         }
         if Uint24::try_from(u as usize).ok().map(|x| x.to_u32()) != (wantu == u).then_some(u) {
             run.violation(&format!("Uint24::try_from({u:#x})"), "wrong", json!({"op":"uint24_try","a":v}));
+        }
+        // usize inputs beyond 32 bits must be rejected, not truncated (64-bit hosts)
+        #[cfg(target_pointer_width = "64")]
+        {
+            for big in [(1usize << 32) | u as usize, (1usize << 32) | (u as usize & 0xFF_FFFF), (1usize << 24 << 32) | 5, usize::MAX - (u as usize & 0xFF)] {
+                if Uint24::try_from(big).is_ok() {
+                    run.violation("Uint24::try_from(usize above u32::MAX) succeeds", &format!("{big:#x}"), json!({"op":"uint24_try_big","a":v}));
+                }
+            }
         }
         // 64-bit date, 32-bit offsets/version/tag at boundary values
         let secs = (v as i64) << 20 ^ (v as i64);
@@ -971,6 +1194,47 @@ fn check_unary32(run: &Run, raw: i32, l: &mut Local) -> bool {
     if raw != i32::MIN && (f.abs().to_bits() != raw.abs() || (-f).to_bits() != -raw) {
         fail("Fixed::abs/neg", "wrong".into());
     }
+    // F26Dot6: round, abs, neg, from_i32 (representable only), to_f32 = nearest f32 of the exact value
+    if r + 32 <= i32::MAX as i64 && g.round().to_bits() as i64 != (r + 32) & !0x3F {
+        fail("F26Dot6::round", format!("got {}", g.round().to_bits()));
+    }
+    if raw != i32::MIN && (g.abs().to_bits() != raw.abs() || (-g).to_bits() != -raw) {
+        fail("F26Dot6::abs/neg", "wrong".into());
+    }
+    let hi26 = raw >> 6;
+    if F26Dot6::from_i32(hi26).to_bits() != hi26 << 6 || F26Dot6::from_i32(hi26).to_i32() != hi26 {
+        fail("F26Dot6::from_i32", "wrong".into());
+    }
+    if g.to_f32() != (raw as f64 / 64.0) as f32 {
+        fail("F26Dot6::to_f32", format!("{}", g.to_f32()));
+    }
+    // MajorMinor, Nullable<Offset32>, 64-bit scalars: every byte pattern round trips field by field
+    let mm = <MajorMinor as Scalar>::from_raw(bytes);
+    if mm.major != (raw as u32 >> 16) as u16 || mm.minor != raw as u16 || mm.to_raw() != bytes || mm.to_be_bytes() != bytes || mm != MajorMinor::new((raw as u32 >> 16) as u16, raw as u16) {
+        fail("MajorMinor::raw", format!("got {}.{}", mm.major, mm.minor));
+    }
+    let noff = <Nullable<Offset32> as Scalar>::from_raw(bytes);
+    if noff.is_null() != (raw == 0) || noff.to_raw() != bytes || *noff.offset() != off || !(noff == raw as u32) || !(off == raw as u32) || (off == (raw as u32).wrapping_add(1)) {
+        fail("Nullable<Offset32>", "null test / u32 comparison / bytes wrong".into());
+    }
+    let wide = ((raw as i64) << 32) | (!raw as u32 as i64).rotate_left(7);
+    let ldt = <LongDateTime as Scalar>::from_raw(wide.to_be_bytes());
+    if ldt.as_secs() != wide || ldt.to_be_bytes() != wide.to_be_bytes() || ldt != LongDateTime::new(wide) || <i64 as Scalar>::from_raw(wide.to_be_bytes()) != wide {
+        fail("LongDateTime/i64 raw", "bytes do not round trip".into());
+    }
+    let o = !raw;
+    if !(be_api::<Fixed>(f, Fixed::from_bits(o), 4)
+        && be_api::<i32>(raw, o, 4)
+        && be_api::<u32>(raw as u32, o as u32, 4)
+        && be_api::<Tag>(tag, Tag::from_u32(o as u32), 4)
+        && be_api::<Offset32>(off, Offset32::new(o as u32), 4)
+        && be_api::<Version16Dot16>(ver, <Version16Dot16 as Scalar>::from_raw(o.to_be_bytes()), 4)
+        && be_api::<MajorMinor>(mm, <MajorMinor as Scalar>::from_raw(o.to_be_bytes()), 4)
+        && be_api::<LongDateTime>(ldt, LongDateTime::new(!wide), 8)
+        && be_api::<i64>(wide, !wide, 8))
+    {
+        fail("BigEndian/Scalar API (32/64-bit)", "new/from/set/get/be_bytes/from_slice/read disagree".into());
+    }
     // from_i32 (representable only)
     let hi = raw >> 16;
     if Fixed::from_i32(hi).to_bits() != hi << 16 || Fixed::from(hi) != Fixed::from_i32(hi) {
@@ -1025,7 +1289,7 @@ fn unary32(run: &Run) {
             // boundary set: every value whose low 10 bits or high 10 bits vary around each boundary:
             // {b + d : b in W, |d| <= 2048} plus all values with zero low half and all with zero high half
             let w = alphabet();
-            run.bound("unary32", json!("W +/- 2048, all 0xHHHH0000 +/- {0,1,0x7fff,0x8000}, all 0x0000LLLL"));
+            run.bound("unary32", json!("W +/- 2048, all 0xHHHHllll for 26 low halves around 0, 2^5, 2^6, 2^9, 2^10, 2^15, 2^16 - 2^9, 2^16, all 0x0000LLLL"));
             let results: Vec<Local> = w
                 .par_iter()
                 .map(|&b| {
@@ -1050,12 +1314,12 @@ fn unary32(run: &Run) {
                 .into_par_iter()
                 .map(|h| {
                     let mut l = Local { all: HashSet::new(), nontrivial: HashSet::new() };
-                    for lo in [0u32, 1, 0x7FFF, 0x8000, 0x8001, 0xFFFF] {
+                    for lo in [0u32, 1, 2, 3, 0x1F, 0x20, 0x21, 0x3F, 0x40, 0x1FF, 0x200, 0x201, 0x3FF, 0x400, 0x7FFE, 0x7FFF, 0x8000, 0x8001, 0x8002, 0xFDFF, 0xFE00, 0xFFDF, 0xFFE0, 0xFFFD, 0xFFFE, 0xFFFF] {
                         check_unary32(run, ((h << 16) | lo) as i32, &mut l);
                     }
                     check_unary32(run, h as i32, &mut l);
-                    run.evals(7);
-                    run.trans(30 * 7);
+                    run.evals(27);
+                    run.trans(30 * 27);
                     l
                 })
                 .collect();
@@ -1069,7 +1333,8 @@ fn unary32(run: &Run) {
 
 fn ot_round(run: &Run) {
     // quarter grid: x = k/4 exactly representable, x + 0.5 exact => floor(x + 1/2) exact reference
-    let lim: i64 = 4 * (1 << 15) + 8;
+    // |x| <= 2^16 + 2: the whole i16 and u16 result ranges and a margin beyond
+    let lim: i64 = 4 * (1 << 16) + 8;
     let mut l = Local { all: HashSet::new(), nontrivial: HashSet::new() };
     for k in -lim..=lim {
         let x = k as f64 / 4.0;
@@ -1098,8 +1363,9 @@ fn ot_round(run: &Run) {
                 run.violation(&format!("OtRound u16 k={k}"), &format!("x={x} got {a}/{b} want {want}"), json!({"op":"ot_round_u16","k":k}));
             }
         }
-        let v: kurbo::Vec2 = kurbo::Vec2::new(x, x).ot_round();
-        if v.x != want as f64 || v.y != want as f64 {
+        // different components, so that a swapped / duplicated component is visible
+        let v: kurbo::Vec2 = kurbo::Vec2::new(x, -x).ot_round();
+        if v.x != want as f64 || v.y != (-2 * k + 4).div_euclid(8) as f64 {
             run.violation(&format!("OtRound Vec2 k={k}"), "wrong", json!({"op":"ot_round_vec","k":k}));
         }
         // one-ulp neighbours of the ties, where x + 0.5 is still exact (|n| >= 1)
